@@ -61,6 +61,13 @@ def c_to_str(cfg, c):
     return ({'op': 'to_str', 'cfg': cfg, 'c': c}, [104, indcfg_sx(cfg), content_sx(c)], ds)
 
 
+def c_helper(which, arg, c, form):
+    """all_dashes_t / initial_dash_t: two spaces (or a tab), dash bullets on all lines / the first line only; None means spaces"""
+    cfg = [arg == 'tab', 2, [which == 'first', '-']]
+    return ({'op': 'helper', 'helper': which, 'arg': arg, 'c': c, 'form': form},
+            [103 if form == 'list' else 104, indcfg_sx(cfg), content_sx(c)], dss if form == 'list' else ds)
+
+
 def c_chunk(c, a, default=False):
     aa = ['s', '\n'] if default else a
     return ({'op': 'chunk', 'c': c, 'a': aa, 'default_appendix': default}, [105, content_sx(c), content_sx(aa)], dec_otb)
